@@ -9,10 +9,10 @@ from . import common, tlc
 def main():
     mods = sorted(f[:-4] for f in os.listdir(common.SPEC) if f.endswith('.tla'))
     wd = common.subdir('sany')
-    tlc.stage(wd)
+    tlc.stage(wd)     # once: the parsers below run in parallel and must not see files being rewritten
     bad = 0
     with ThreadPoolExecutor(8) as ex:
-        for m, (ok, out) in zip(mods, ex.map(lambda m: tlc.sany(m, wd), mods)):
+        for m, (ok, out) in zip(mods, ex.map(lambda m: tlc.sany(m, wd, staged=True), mods)):
             if not ok and m.endswith('_proofs') and 'module TLAPS' in out:
                 # (a proof module; the proof system's library is not where it is expected: tlapm itself parses it in the check)
                 print('%-28s %s' % (m, 'skipped (TLAPS library not found for SANY)'))
